@@ -622,6 +622,21 @@ def enumerate_sequences(desc, geo=None, limit=300_000):
             yield seq
 
 
+def space_size(desc):
+    """number of candidate sequences over the basic factors (the bound that defines D)"""
+    fm = factor_map(desc)
+    g = geometry(desc)
+    sustain = {f: 1 for f in g["design"]}
+    for c in g["crossings"]:
+        for f in c["factors"]:
+            sustain[f] = c["sustain"]
+    total = 1
+    for f in g["design"]:
+        if not is_derived(fm[f]):
+            total *= len(set(level_names(fm[f]))) ** ceil_div(g["T"], sustain[f])
+    return total
+
+
 def valid_sets(desc, limit=300_000):
     """-> (definitely valid, ambiguous) as lists of canonical sequence keys"""
     g = geometry(desc)
